@@ -225,12 +225,12 @@ def singleLineHashCount (E : Env) (f : Form) (s : Bytes) : Nat :=
     | none => 0
 
 /-- `singleLineHashCount` with the one-line repair proposed in notes/C09.md: fall back to
-escaping (return 0) when `s` starts with two quote characters not followed by '#'
-(`#"""x"#` would otherwise read as a multi-line opener). -/
+escaping (return 0) when `s` starts with two quote characters (`#"""x"#` would otherwise
+read as a multi-line opener in `ParseQuotes`, and `##"""#"##` is rejected by the scanner). -/
 def singleLineHashCountFixed (E : Env) (f : Form) (s : Bytes) : Nat :=
   match s with
-  | a :: b :: rest =>
-    if a == f.quote && b == f.quote && rest.head? != some 0x23 then 0 else singleLineHashCount E f s
+  | a :: b :: _ =>
+    if a == f.quote && b == f.quote then 0 else singleLineHashCount E f s
   | _ => singleLineHashCount E f s
 
 /-- `requiredHashCount` -/
